@@ -62,6 +62,10 @@ func fragSources(c *core.Ctx) []fragSrc {
 			p := fmt.Sprintf("N%04d", i)
 			extra = append(extra, fragSrc{prefix: p, src: nonUTF8Sweep(p, i, pieces), raw: true, static: true})
 		}
+		for i := range nuByteSpaceBodies {
+			p := fmt.Sprintf("NB%03d", i)
+			extra = append(extra, fragSrc{prefix: p, src: nuByteSpaceFile(p, i, pieces), raw: true})
+		}
 		for i, n := len(nuSweepPos), len(nuSweepPos)+c.N(12, 240); i < n; i++ {
 			p := fmt.Sprintf("N%04d", i)
 			src, pc := nonUTF8File(c.Rng.Fork(), p, 1+c.Rng.Intn(3))
@@ -122,6 +126,11 @@ func fragment(c *core.Ctx) {
 			fs := srcs[i]
 			f, err := probe.Prepare(fs.prefix, fs.src)
 			if err != nil {
+				if fs.raw && rejectedByteSpace(fs.prefix, fs.src, err) {
+					// not a template `templ generate` accepts (nonutf8.go: rejectedByteSpace): outside the quantifier, counted
+					c.Hist("fragment: file that is not valid UTF-8 REJECTED by the parser (byte 0x85/0xA0 behind a node on its line: non space character found), skipped")
+					continue
+				}
 				c.Fail("tie", "fragment grammar: generated templates are accepted by parse+generate", "", map[string]string{"source": trunc(fs.src, 6000)}, err.Error())
 				continue
 			}
